@@ -248,7 +248,8 @@ package funcs
 //@ func addKey2PtWithVal
 //@ props C01 C10 C11
 //@ requires runtime.wfVal(value, dtype)
-//@ modifies ptFrame
+// object-precise: the three maps of the run's point and index-entry fields, no other map
+//@ modifies mapof(thePt(in).Fields), mapof(thePt(in).Tags), mapof(thePt(in).Meta), input.TFMeta.DType, input.TFMeta.PtFlag
 
 //@ func deletePtKey
 //@ props C01 C10 C11
@@ -332,6 +333,8 @@ package funcs
 //@ pure
 //@ extern github.com/GuanceCloud/grok.(*GrokRegexp).RunWithTypeInfo
 //@ pure
+// the captures come back in a map made by the call (grok.go: castDst := map[string]interface{}{})
+//@ ensures result2 == nil ==> result0 != nil && fresh(result0)
 //@ extern encoding/json.Unmarshal
 //@ modifies nothing
 
